@@ -620,4 +620,13 @@ MUTANTS = [
                  "        flag = common.Struct.byte.unpack_from(value[0:1])"
                  "[0]\n        if flag > 1:\n            raise ValueError("
                  "'bad boolean')\n        return 1, bool(flag)")]),
+    dict(id='x-wellknown-key-int-type', property='C11', also=['C04', 'C03'],
+         what="integers under RabbitMQ's x-* argument names always sent as "
+              "signed 32-bit ('I'), whatever the ladder says",
+         edits=[(E, "        data.append(short_string(key))\n        try:\n",
+                 "        data.append(short_string(key))\n        if key in "
+                 "('x-message-ttl', 'x-expires', 'x-max-length') and type("
+                 "value) is int and 0 <= value < 2 ** 31:\n            "
+                 "data.append(b'I' + long_int(value))\n            continue\n"
+                 "        try:\n")]),
 ]
